@@ -131,6 +131,8 @@ module N :
 
   val succ : n -> n
 
+  val succ_pos : n -> positive
+
   val add : n -> n -> n
 
   val sub : n -> n -> n
@@ -344,10 +346,6 @@ val in_int64 : z -> bool
 val wrap64 : z -> z
 
 val assoc_str : str -> (str * 'a1) list -> 'a1 option
-
-val assoc_n : n -> (n * 'a1) list -> 'a1 option
-
-val update_n : n -> 'a1 -> (n * 'a1) list -> (n * 'a1) list
 
 val nth_z : 'a1 list -> z -> 'a1 option
 
@@ -848,6 +846,31 @@ val parse_fuel : token list -> nat
 
 val parse_program : bool -> token list -> block pres
 
+module PositiveMap :
+ sig
+  type key = positive
+
+  type 'a tree =
+  | Leaf
+  | Node of 'a tree * 'a option * 'a tree
+
+  type 'a t = 'a tree
+
+  val empty : 'a1 t
+
+  val find : key -> 'a1 t -> 'a1 option
+
+  val add : key -> 'a1 -> 'a1 t -> 'a1 t
+ end
+
+type 'a nmap = 'a PositiveMap.t
+
+val nm_empty : 'a1 nmap
+
+val nm_get : n -> 'a1 nmap -> 'a1 option
+
+val nm_put : n -> 'a1 -> 'a1 nmap -> 'a1 nmap
+
 type dtype = { dk : dkind; dname : str option }
 
 val dt_none : dtype
@@ -889,7 +912,8 @@ type ctx = { x_parent : n option; x_name : str; x_vars : (str * n) list;
              x_arrs : (str * n) list; x_enums : (str * str list) list;
              x_ptrs : (str * dtype) list; x_comps : (str * block) list;
              x_isfun : bool; x_isrec : bool; x_rettype : dtype;
-             x_retval : result option; x_switch : (z * z) option }
+             x_retval : result option; x_switch : (z * z) option;
+             x_depth : nat }
 
 type pdef = { pd_params : ((str * dtype) * bool) list; pd_body : block }
 
@@ -913,8 +937,8 @@ type ecls =
 type diag = { d_kind : dkindg; d_line : z; d_col : z; d_cls : ecls;
               d_trace : ((str * z) * z) list }
 
-type st = { s_next : n; s_cells : (n * cell) list; s_arrs : (n * arr) list;
-            s_ctxs : (n * ctx) list; s_procs : (str * pdef) list;
+type st = { s_next : n; s_cells : cell nmap; s_arrs : arr nmap;
+            s_ctxs : ctx nmap; s_procs : (str * pdef) list;
             s_funcs : (str * fdef) list; s_out : str list; s_in : str;
             s_fs : (str * str) list; s_files : ofile list; s_steps : 
             z; s_cellcount : z; s_depth : z; s_rand : z list }
@@ -958,11 +982,11 @@ val iterM : ('a1 -> unit m) -> 'a1 list -> unit m
 
 val set_next : n -> st -> st
 
-val set_cells : (n * cell) list -> st -> st
+val set_cells : cell nmap -> st -> st
 
-val set_arrs : (n * arr) list -> st -> st
+val set_arrs : arr nmap -> st -> st
 
-val set_ctxs : (n * ctx) list -> st -> st
+val set_ctxs : ctx nmap -> st -> st
 
 val set_procs : (str * pdef) list -> st -> st
 
